@@ -317,7 +317,7 @@ class Generator:
                 self.out.emit("}\n", "template", rel, i + 1)
                 self.cur_impl = None
                 i += 1
-            elif cmd == "fn":
+            elif cmd in ("fn", "slice"):
                 # collect sections until //@endfn
                 sections = []
                 cur = None
@@ -331,7 +331,7 @@ class Generator:
                         if c2 == "endfn":
                             break
                         if c2 in ("sig", "loop", "body-start", "body-end", "loop-start", "loop-end",
-                                  "before", "after", "replace-type"):
+                                  "before", "after", "replace-type", "decl"):
                             cur = {"cmd": c2, "arg": a2, "lines": [], "line0": j + 2}
                             sections.append(cur)
                         else:
@@ -343,7 +343,10 @@ class Generator:
                         else:
                             cur["lines"].append(lines[j])
                     j += 1
-                self.do_fn(arg, sections, rel, i + 1)
+                if cmd == "slice":
+                    self.do_slice(arg, sections, rel, i + 1)
+                else:
+                    self.do_fn(arg, sections, rel, i + 1)
                 i = j + 1
             else:
                 raise SpecError("%s:%d: unknown directive %s" % (rel, i + 1, cmd))
@@ -779,6 +782,96 @@ class Generator:
             "spec_line": lineno,
         })
         self.functions.append(meta)
+
+    # -- R10: statement-range slice ----------------------------------------------------------
+    def do_slice(self, arg, sections, rel, lineno):
+        """//@slice <file> :: <fn path> as: <name> from: /re/ to: /re/   followed by
+        //@decl (the synthetic signature: parameters = free variables of the slice, return type,
+        optional trailing expression) and the usual //@sig ... sections.  The statements between
+        the first line matching `from` and the first later line matching `to` (inclusive) are
+        copied verbatim into the synthetic function."""
+        m = re.match(r"(.*?)\s+as:\s*(\w+)\s+from:\s*/(.*?)/\s+to:\s*/(.*?)/\s*(props:.*)?$", arg)
+        if not m:
+            raise SpecError("%s:%d: bad //@slice directive" % (rel, lineno))
+        target, name, rfrom, rto, propstr = m.groups()
+        src, file, path, opts = self.locate(target.strip())
+        props = (propstr or "").replace("props:", "").split()
+        if not path[-1].startswith("fn "):
+            path[-1] = "fn " + path[-1]
+        it, chain = rustlex.find_item(src, path)
+        if it is None or it.body_open is None:
+            raise LostAnchor("%s :: %s not found" % (file, " :: ".join(path)))
+        s = src.sig
+        b0 = s[it.body_open].end
+        b1 = s[src.match[it.body_open]].start
+        text = src.text
+        pos_from = pos_to = None
+        off = b0
+        for lm in re.finditer(r"[^\n]*\n", text[b0:b1]):
+            line = lm.group(0)
+            if pos_from is None:
+                if re.search(rfrom, line):
+                    pos_from = b0 + lm.start()
+                    if re.search(rto, line) and rto != rfrom:
+                        pos_to = b0 + lm.end()
+                        break
+            elif re.search(rto, line):
+                pos_to = b0 + lm.end()
+                break
+        if pos_from is None or pos_to is None:
+            raise LostAnchor("%s: slice anchors /%s/ .. /%s/ not found in %s" % (file, rfrom, rto, path[-1]))
+        # token range of the slice
+        lo = next(i for i, t in enumerate(s) if t.start >= pos_from)
+        hi = next((i for i, t in enumerate(s) if t.start >= pos_to), len(s))
+        ed = Edits(text, (pos_from, pos_to))
+        rules = {"R10": 1}
+        apply_body_rules(src, lo, hi, ed, rules)
+        strip_inner_attrs(src, lo, hi, ed, rules)
+        decl = sig = ""
+        pre = post = ""
+        for sec in sections:
+            body = "\n".join(sec["lines"]).rstrip()
+            if sec["cmd"] == "decl":
+                decl = body
+            elif sec["cmd"] == "sig":
+                sig = body
+            elif sec["cmd"] == "body-start":
+                pre = body
+            elif sec["cmd"] == "body-end":
+                post = body
+            elif sec["cmd"] in ("before", "after"):
+                am = re.match(r"/(.*)/\s*$", sec["arg"])
+                rx = re.compile(am.group(1))
+                ipos = None
+                for lm in re.finditer(r"[^\n]*\n", text[pos_from:pos_to]):
+                    if rx.search(lm.group(0)):
+                        ipos = pos_from + (lm.start() if sec["cmd"] == "before" else lm.end())
+                        break
+                if ipos is None:
+                    raise LostAnchor("%s: anchor /%s/ not found in slice %s" % (file, am.group(1), name))
+                ed.insert(ipos, body + "\n", 1)
+            else:
+                raise SpecError("%s: section %s not supported in //@slice" % (rel, sec["cmd"]))
+        if not decl:
+            raise SpecError("%s:%d: //@slice needs a //@decl section" % (rel, lineno))
+        g0 = self.out.lineno
+        self.out.emit("// SLICE (rule R10) of %s :: %s, lines %d-%d; the wrapper signature is synthetic, the statements are verbatim\n"
+                      % (file, path[-1], src.line_of(pos_from), src.line_of(pos_to - 1)), "template", rel, lineno)
+        self.out.emit(decl.split("=>")[0].rstrip() + "\n" + sig + "\n{\n" + pre + "\n", "template", rel, lineno)
+        if self.probe:
+            self.out.emit("proof { assert(false); } // VACUITY-PROBE\n", "inserted")
+        self.emit_chunks(ed.render(), src)
+        tail = decl.split("=>")[1].strip() if "=>" in decl else ""
+        self.out.emit(post + "\n" + tail + "\n}\n\n", "template", rel, lineno)
+        g1 = self.out.lineno - 1
+        stext = text[pos_from:pos_to]
+        self.functions.append({
+            "item": " :: ".join(path) + " [slice %s]" % name, "file": file,
+            "lines": [src.line_of(pos_from), src.line_of(pos_to - 1)],
+            "sha256": hashlib.sha256(stext.encode()).hexdigest(), "rules": rules,
+            "name": name, "qualified": name, "signature": decl.split("\n")[0], "props": props,
+            "gen_lines": [g0, g1], "loops": 0, "spec_file": rel, "spec_line": lineno,
+        })
 
     def tag(self, text, rel, line0):
         return text
